@@ -96,6 +96,8 @@ structure Slot where
   id : Nat
   addr : Option Nat
   idx : Option Nat
+  /-- the handle is nil: `Find` did not find the value -/
+  isNil : Bool := false
 
 structure St where
   dbl : Bool
@@ -204,7 +206,7 @@ def handleStep (st : St) (l : Line) : Step St :=
       let idx := match st.xs.idxOf? x with
         | some (i + 1) => some (i + 1)
         | _ => none
-      let slots := { id := k.toNat, addr := addr, idx := idx } :: st.slots.filter (fun sl => sl.id != k.toNat)
+      let slots := { id := k.toNat, addr := addr, idx := idx, isNil := !st.xs.contains x } :: st.slots.filter (fun sl => sl.id != k.toNat)
       { st := { st with m := m', xs := xs', slots := slots }, model := mans, tags := ["hold"]
         spec := if ans == .bool (st.xs.contains x) && xs' == st.xs then none else some "sequence:find" }
     | none => bad "result"
@@ -214,6 +216,12 @@ def handleStep (st : St) (l : Line) : Step St :=
       let v : Int := match rest with
         | [.int v] => v
         | _ => 0
+      if sl.isNil then
+        -- a nil handle (the value was absent when `Find` was asked): every operation refuses it and changes nothing
+        let (m', mans) := modelHandle st.m opn none v
+        { st := { st with m := m', xs := xs' }, model := mans, tags := [opn ++ ":nil-handle"], nontrivial := true
+          spec := if ans == .err && xs' == st.xs then none else some s!"nil-handle-refused:{opn}" }
+      else
       match sl.idx with
       | none =>
         -- the handle designates no element (by the rules of `Spec.C19.moveIdx`): nothing is specified; the case goes
@@ -248,6 +256,8 @@ def kindFor (dbl : Bool) : Kind where
   step := fun st l =>
     let isHandle := l.op == "hold" || l.op == "deleteh" || l.op == "insertafterh" || l.op == "insertbeforeh"
     if isHandle && l.res != [.atom "panic"] && l.res != [.atom "hang"] then handleStep st l else
+    if (l.op == "eachobs" || l.op == "eachpanic") && (l.res == [.atom "panic"] || l.res == [.atom "hang"]) then
+      { st := st, tags := [l.op], spec := some s!"no-panic:{l.op}" } else
     let (m', mans) := modelStep st.m l
     let st := { st with m := m' }
     match l.res with
@@ -255,6 +265,15 @@ def kindFor (dbl : Bool) : Kind where
     | [.atom "hang"] => { st := st, model := mans, tags := [l.op], spec := some s!"terminates:{l.op}" }
     | _ =>
     if l.op == "dump" then { st := st, model := mans, tags := ["dump"] } else
+    -- `Each` with a callback that observes the list (`eachobs`: every nested observation must see the whole list) or
+    -- panics at some visit (`eachpanic k`, recovered by the caller): `Each` observes, it never changes the sequence
+    if l.op == "eachobs" then
+      { st := st, model := some [Val.ofBool true, Val.ofInts st.xs], tags := ["eachobs"], nontrivial := st.xs.length ≥ 2
+        spec := if l.res == [Val.ofBool true, Val.ofInts st.xs] then none else some "each-observes-without-changing:nested-observer" }
+    else if l.op == "eachpanic" then
+      { st := st, model := some [Val.ofInts st.xs], tags := ["eachpanic"], nontrivial := st.xs.length ≥ 2
+        spec := if l.res == [Val.ofInts st.xs] then none else some "each-observes-without-changing:panicking-callback" }
+    else
     -- long runs: `fill`, quiet operations (`q <op> …`: the answer only) and summarised observations.  The sequence
     -- is carried by the specification's successor function (`Spec.C19.next`, the only admitted outcome:
     -- `Theorems.C19.allowed_eq_next`); the pointer-level model is not run any more (quadratic on long lists).
